@@ -504,6 +504,22 @@ def run_config(item, ctx):
     seed = core.derive_seed(ctx['seed'], PROP, idx)
     core.quiet_tenpy()
     np.seterr(all='ignore')
+    # the process works in an empty scratch directory: any byte that bypasses the file-system seam lands there
+    sd = core.scratch_dir('c18')
+    old_cwd = os.getcwd()
+    os.chdir(sd)
+    try:
+        res = _run_config(idx, tier, seed, ctx)
+        leaked = sorted(os.listdir(sd))
+        if leaked:
+            raise core.HarnessError(f'files written past the simulated file system: {leaked[:5]}')
+        return res
+    finally:
+        os.chdir(old_cwd)
+        core.rm_scratch(sd)
+
+
+def _run_config(idx, tier, seed, ctx):
     cfg = W.gen_config(seed, tier, family=ctx.get('family'))
     stats = new_stats()
     stats['configs'] = 1
